@@ -54,6 +54,8 @@ REQUIRED_COUNTERS = ['decoders_constructed', 'decode_calls',
                      'syndrome_equalities_checked', 'zero_syndrome_decodes',
                      'noncss_cells', 'rectangular_cells',
                      'isolated_children_ok',
+                     'decode_calls_with_bool_syndrome',
+                     'decoders_with_numpy_error_rate',
                      'same_process_deformation_variants']
 SHARD_TIMEOUT = {'quick': 900, 'thorough': 3600}
 
@@ -233,6 +235,9 @@ def plan(tier, seed):
     return tasks
 
 
+RATE_TYPES = [float, np.float64, np.float32]
+
+
 def build_cell(task):
     from panqec.error_models import PauliErrorModel
     cls, size = task['cls'], tuple(task['size'])
@@ -248,7 +253,10 @@ def build_cell(task):
         kw = {'max_bp_iter': 3}
     if task.get('decoder_kwargs'):
         kw.update(task['decoder_kwargs'])
-    dec = dcls(code, em, task['rate'], **kw)
+    # the error rate as a plain float, or as the numpy scalar a sweep over
+    # np.linspace / an array of rates hands over
+    rt = RATE_TYPES[(len(cls) + sum(size) + int(task['rate'] * 100)) % 3]
+    dec = dcls(code, em, rt(task['rate']), **kw)
     return code, em, dec
 
 
@@ -317,6 +325,8 @@ def run_cell(task, out):
         out.case(desc, False)
         return
     out.count('decoders_constructed')
+    if type(getattr(dec, 'error_rate', 0.0)) is not float:
+        out.count('decoders_with_numpy_error_rate')
     n = code.n
     H = gf2.pack_rows(code.stabilizer_matrix)
     m = len(H)
@@ -357,9 +367,9 @@ def run_cell(task, out):
     synds = [('zero-first', 0)] + [synds[i] for i in order] + \
         [('zero-last', 0)]
     nonzero_seen = 0
-    dtypes = ['uint8', 'int64', 'uint8', 'int32']
+    dtypes = ['uint8', 'int64', 'bool', 'int32', 'uint8']
     for j, (lab, s_int) in enumerate(synds):
-        s = gf2.unpack(s_int, m).astype(dtypes[j % 4]) if m else \
+        s = gf2.unpack(s_int, m).astype(dtypes[j % 5]) if m else \
             np.zeros(0, dtype='uint8')
         try:
             with contextlib.redirect_stdout(io.StringIO()):
@@ -375,6 +385,8 @@ def run_cell(task, out):
                      label=lab))
             break
         out.count('decode_calls')
+        if s.dtype == bool and s_int:
+            out.count('decode_calls_with_bool_syndrome')
         if s_int:
             nonzero_seen += 1
         c = np.asarray(c)
